@@ -8,6 +8,7 @@ import (
 
 	frugal "github.com/Workiva/frugal/lib/go"
 	"github.com/apache/thrift/lib/go/thrift"
+	"github.com/nats-io/nats.go"
 	"verif/simrt"
 )
 
@@ -199,6 +200,15 @@ func natsLifecycle(rc *RunCtx) {
 		}
 		return -1
 	}
+	reconnecting := tp.Intn("reconnect", 2) == 1
+	if reconnecting {
+		// a client that rides out server restarts: between servers its status is RECONNECTING
+		b.ConnOptions = append(b.ConnOptions, func(o *nats.Options) error {
+			o.AllowReconnect, o.MaxReconnect, o.ReconnectWait, o.NoRandomize = true, -1, 20*time.Millisecond, true
+			o.ReconnectJitter, o.ReconnectJitterTLS = 0, 0
+			return nil
+		})
+	}
 	s.GoRoot("user", "user", func() {
 		nc, err := b.Connect("client")
 		if err != nil {
@@ -208,11 +218,55 @@ func natsLifecycle(rc *RunCtx) {
 		}
 		tr := frugal.NewFNatsTransport(nc, "svc", "_INBOX.lc")
 		open, dropped := false, false
+		down := false
+		serverOp := func() {
+			if down {
+				rc.Fault("nats-server-back")
+				b.ComeBack()
+				settle(200 * time.Millisecond) // several reconnect attempts later the client is connected again
+				down = false
+				opLog = append(opLog, "server-back")
+			} else {
+				rc.Fault("nats-server-down-client-reconnecting")
+				b.GoDown()
+				settle(5 * time.Millisecond)
+				down = true
+				opLog = append(opLog, "server-down")
+			}
+		}
 		var closedCh <-chan error
 		n := 3 + tp.Intn("ops", rc.Scale(10, 24))
 		reqN := 0
 		for i := 0; i < n; i++ {
 			settle(time.Millisecond)
+			if reconnecting && !dropped && tp.Intn("reconnect", 5) == 4 {
+				serverOp()
+				continue
+			}
+			if down {
+				// while the client is between servers the transport is not usable and must say so
+				switch tp.Intn("ops", 3) {
+				case 0:
+					err := tr.Open()
+					opLog = append(opLog, fmt.Sprintf("open(down)->%v", err))
+					if err == nil {
+						rc.Violate("C15", "nats-open-while-reconnecting", "nats", fmt.Sprintf("Open returned nil while the connection was RECONNECTING (IsOpen now %v); ops %v", tr.IsOpen(), opLog))
+						open = true
+					}
+				case 1:
+					if got := tr.IsOpen(); got {
+						rc.Violate("C15", "isopen-inconsistent", "nats", fmt.Sprintf("IsOpen()=true while the connection is RECONNECTING; ops %v", opLog))
+					}
+				default:
+					ctx := frugal.NewFContext("lc")
+					ctx.SetTimeout(50 * time.Millisecond)
+					_, err := tr.Request(ctx, EncodeFrame(ctx.RequestHeaders(), []byte("req")))
+					if typeID(err) != thrift.NOT_OPEN {
+						rc.Violate("C15", "request-on-closed-not-reported", "nats", fmt.Sprintf("Request while RECONNECTING returned %v", err))
+					}
+				}
+				continue
+			}
 			switch tp.Intn("ops", 6) {
 			case 0:
 				err := tr.Open()
@@ -599,6 +653,20 @@ func lifecycleHarness(rc *RunCtx) {
 			lc.closeFailsLeft = 0
 		case "isopen":
 			r.b = tr.IsOpen()
+		case "closedq":
+			// somebody who asks only now, after the close: the channel handed out must already have fired.
+			// (probed only once this epoch's own watcher has drained the channel, so that nothing is taken from it)
+			e := lc.cur()
+			if e == nil || !e.watched || len(e.values) != 1 || !e.chanClosed {
+				r.det = false
+				break
+			}
+			select {
+			case <-tr.Closed():
+				r.b = true
+			default:
+				r.b = false
+			}
 		case "request":
 			lc.reqN++
 			ctx := frugal.NewFContext("lc")
@@ -644,6 +712,9 @@ func lifecycleHarness(rc *RunCtx) {
 			}
 			// the monitor may have reopened meanwhile
 			afterOpen()
+			if tp.Intn("closedq", 6) == 5 {
+				doOp("closedq", settled)
+			}
 			switch tp.Intn("ops", 9) {
 			case 0, 1:
 				doOp("open", settled)
@@ -705,6 +776,10 @@ func lifecycleHarness(rc *RunCtx) {
 		case "isopen":
 			if r.b != r.expOpen {
 				rc.Violate("C15", "isopen-inconsistent", "adapter", fmt.Sprintf("op %d: IsOpen()=%v, expected %v", r.idx, r.b, r.expOpen))
+			}
+		case "closedq":
+			if !r.expOpen && !r.b {
+				rc.Violate("C15", "closed-channel-silent-after-close", "adapter", fmt.Sprintf("op %d: the transport is closed and its cause was published, yet Closed() hands out a channel that has not fired (a watcher starting now would wait for ever); ops %v", r.idx, opLog))
 			}
 		}
 	}
